@@ -43,7 +43,11 @@ impl Quote {
             Number::F64(self.v)
         };
         let s: Option<NaiveDateTime> = if self.settle == 0 { None } else { Some(dn(self.settle)) };
-        FXRate::try_new(&self.l, &self.r, num, s).map_err(|e| e.to_string())
+        // currency codes are case-insensitive on the way in (stored lower-cased): hand them over in mixed case,
+        // chosen by the bits of the rate so that the same code arrives in different spellings within one market
+        let bits = self.v.to_bits();
+        let spell = |c: &str, k: u64| match (bits >> k) & 3 { 0 => c.to_uppercase(), 1 => { let mut t = c.to_string(); t[..1].make_ascii_uppercase(); t } _ => c.to_string() };
+        FXRate::try_new(&spell(&self.l, 3), &spell(&self.r, 7), num, s).map_err(|e| e.to_string())
     }
     pub fn json(&self) -> Value {
         json!({"l": self.l, "r": self.r, "v": fj(self.v), "vars": self.vars, "g": fvec(&self.g), "settle": self.settle,
